@@ -734,6 +734,21 @@ func extractC15(c *ctxT) {
 	b.WriteString("]\n\n")
 	c.facts["C15.addDepositSteps"] = steps
 
+	asteps := c15ActivateSteps(c, kdir)
+	b.WriteString("/-- x/gov/keeper/proposal.go ActivateVotingPeriod: its top-level statements in source order (error checks skipped) -/\n")
+	b.WriteString("def activateSteps : List String := [\n")
+	for i, t := range asteps {
+		sep := ","
+		if i == len(asteps)-1 {
+			sep = ""
+		}
+		fmt.Fprintf(b, "  %s%s\n", leanStr(t), sep)
+	}
+	b.WriteString("]\n\n")
+	c.facts["C15.activateSteps"] = asteps
+
+	c15SdkSteps(c, b)
+
 	b.WriteString("end FxVerif.Gen.C15\n")
 	c.write("C15.lean", b.String())
 }
